@@ -504,6 +504,11 @@ func writeReplay(eng *Engine, prop string, r *Result, qdir string) string {
 		gofile = gf
 		r.reproduced = repro
 		fmt.Fprintf(&sb, "\n--- replay ---\n%s\n", log)
+	} else if r.Status == "sat" && r.fv != nil && r.fv.bvFn != "" {
+		gf, log, repro := bvReplay(eng, prop, r, dir, name)
+		gofile = gf
+		r.reproduced = repro
+		fmt.Fprintf(&sb, "\n--- replay ---\n%s\n", log)
 	}
 	fmt.Fprintf(&sb, "\nformula: %s\nguard: %s\n", r.Ob.Formula, r.Ob.Guard)
 	if r.Model != "" {
